@@ -8,19 +8,46 @@ pub use explore::{bfs, fp128, Bounds, KnownMatcher, Model, RunStats, Step, Viola
 pub use report::{Known, Report};
 pub use world::{addr, ContractVt, Dispatched, TxOut, World};
 
-use rayon::prelude::*;
 
-/// Explore several configurations of one model type in parallel (each BFS is itself parallel).
+/// Run `n` jobs (one per configuration; job `i` typically calls `mc::bfs`) on a few worker threads,
+/// each with its OWN rayon pool. `mc::bfs` parallelises every level with `par_iter`; if several
+/// searches shared one pool, a search waiting for its level could steal and run another
+/// configuration's whole search on its stack, which makes per-configuration wall times and time
+/// caps meaningless. Results come back in job order; the searches themselves are deterministic.
+pub fn run_pooled<T: Send, F: Fn(usize) -> T + Sync>(n: usize, f: F) -> Vec<T> {
+    use std::sync::atomic::{AtomicUsize, Ordering};
+    use std::sync::Mutex;
+    let cores = std::thread::available_parallelism().map(|x| x.get()).unwrap_or(8);
+    let workers: usize = std::env::var("MC_WORKERS").ok().and_then(|s| s.parse().ok()).unwrap_or(4).clamp(1, n.max(1));
+    let per = (cores * 2 / workers.max(1)).clamp(1, cores);
+    let next = AtomicUsize::new(0);
+    let slots: Vec<Mutex<Option<T>>> = (0..n).map(|_| Mutex::new(None)).collect();
+    std::thread::scope(|sc| {
+        for _ in 0..workers {
+            sc.spawn(|| {
+                let pool = rayon::ThreadPoolBuilder::new().num_threads(per).build().expect("thread pool");
+                loop {
+                    let i = next.fetch_add(1, Ordering::SeqCst);
+                    if i >= n {
+                        break;
+                    }
+                    let r = pool.install(|| f(i));
+                    *slots[i].lock().unwrap() = Some(r);
+                }
+            });
+        }
+    });
+    slots.into_iter().map(|m| m.into_inner().unwrap().expect("job finished")).collect()
+}
+
+/// Explore several configurations of one model type (see `run_pooled`).
 pub fn run_all<M: Model + Send>(
     models: &[M],
     bounds: &Bounds,
     known: &dyn KnownMatcher,
 ) -> Vec<RunStats> {
     let seed = report::seed();
-    models
-        .par_iter()
-        .map(|m| explore::bfs(m, bounds, known, seed))
-        .collect()
+    run_pooled(models.len(), |i| explore::bfs(&models[i], bounds, known, seed))
 }
 
 pub struct Args {
